@@ -421,7 +421,8 @@ def reintro(id, prop, rule, commit, what):
 reintro("C19-M1", "C19", "R19a", "b2e7663", "default-allow validator in parse_function")
 reintro("C03-M6", "C03", "R03b", "5117305", "int()/ceil on the raw grid quotient")
 reintro("C15-M12", "C15", "R15b", "5117305", "non-idempotent sim_end setter")
-reintro("C05-M1", "C05", ["R05a", "R05b"], "c57d6af", "math.ceil(duration / dt) keyring size, siblings disagree")
+# (fix c57d6af no longer reverse-applies since fix #27 touched the same lines: the defect is re-introduced textually)
+mutant("C05-M1", "C05", ["R05a", "R05b"], "re-intro: math.ceil(duration / dt) keyring size in the compartment, helper in the link (siblings disagree)", M, "TimedCompartment.preallocate", "np.empty((_keyring_size(duration, dt), tvec.size)", "np.empty((max(1, math.ceil(duration / dt)), tvec.size)")
 reintro("C15-M2", "C15", "R15a", "991907e", "run_optimization restores sim_end outside finally")
 reintro("C15-M6", "C15", "R15d", "50ec2d8", "Population object compared with pop_names")
 reintro("C16-M1", "C16", "R16a", "b36f5ea", "stale Covout cache after reconciliation / remove_program")
@@ -547,8 +548,8 @@ mutant("C02-M20", "C02", "R02f", "negative stock leaves the slot unwritten", M, 
 mutant("C02-M21", "C02", "R02e", "requested outflow starts at one", M, "Compartment.resolve_outflows", "outflow = 0.0", "outflow = 1.0")
 mutant("C05-M22", "C05", "R05i", "flush adds the outflow already taken", M, "TimedCompartment.resolve_outflows", "self._vals[0, ti] - self._cached_outflow[0]", "self._vals[0, ti] + self._cached_outflow[0]")
 mutant("C05-M23", "C05", "R05h", "compartment duration divided by the timescale", M, "TimedCompartment.preallocate", "self.parameter.vals[0] * self.parameter.timescale", "self.parameter.vals[0] / self.parameter.timescale")
-mutant("C05-M24", "C05", "R05h", "link duration ignores the scale factor", M, "TimedLink.preallocate", "duration = parameter.vals[0] * parameter.timescale * parameter.scale_factor", "duration = parameter.vals[0] * parameter.timescale")
-twin("C05-T7", "C05", "duration product reordered", M, "TimedCompartment.preallocate", "self.parameter.vals[0] * self.parameter.timescale * self.parameter.scale_factor", "self.parameter.timescale * self.parameter.scale_factor * self.parameter.vals[0]")
+mutant("C05-M24", "C05", "R05h", "link duration applies the scale factor a second time (defect #27 restored on one side)", M, "TimedLink.preallocate", "duration = parameter.vals[0] * parameter.timescale  #", "duration = parameter.vals[0] * parameter.timescale * parameter.scale_factor  #")
+twin("C05-T7", "C05", "duration product reordered", M, "TimedCompartment.preallocate", "self.parameter.vals[0] * self.parameter.timescale  #", "self.parameter.timescale * self.parameter.vals[0]  #")
 twin("C01-T6", "C01", "cache reset written as 0.0", M, "Compartment.resolve_outflows", "self._cached_outflow = 0", "self._cached_outflow = 0.0")
 
 # ---- round 4, second half
@@ -954,3 +955,9 @@ mutant("C16-M51", "C16", "R16ab", "transfers read from the second table on", DA,
 mutant("C16-M52", "C16", "R16ab", "interaction built from two tables", DA, "ProjectData._read_interpops", "tables[i : i + 3]", "tables[i : i + 2]")
 mutant("C16-M53", "C16", "R16ab", "transfers read as interactions", DA, "ProjectData._read_transfers", 'tables[i : i + 3], "transfer")', 'tables[i : i + 3], "interaction")')
 mutant("C16-M54", "C16", "R16ab", "only the first interaction of each name is refused, the others are dropped", DA, "ProjectData._read_interpops", "            self.interpops.append(interaction)", "            if len(self.interpops) == 0:\n                self.interpops.append(interaction)")
+# ---- round 10
+mutant("C06-M49", "C06", "R06m", "descent into a Parameter dependency skipped when programs may overwrite it (seeded C02i)", M, "Parameter.set_dynamic", "                        dep.set_dynamic(progset=progset)  # Run", "                        if not (progset and dep.name in progset.pars):\n                            dep.set_dynamic(progset=progset)  # Run")
+mutant("C06-M50", "C06", "R06o", "timed function parameters no longer flagged for evaluation (seeded C05i)", M, "Population.build", "par.links or par.derivative or framework.pars.at[par.name, \"timed\"] == \"y\" or", "par.links or par.derivative or")
+mutant("C04-M40", "C04", "R04b", "initial flush skips junctions without a setup weight (seeded C04i)", M, "Model.flush_junctions", "                j.initial_flush()", "                if self.framework.comps.at[j.name, 'setup weight'] > 0:\n                    j.initial_flush()")
+mutant("C07-M33", "C07", "R07j", "characteristics with a default value get weight 0 when the column is missing (seeded C07i)", FW, "ProjectFramework._sanitize_characteristics", '(~self.characs["databook page"].isna() | ~self.characs["default value"].isna()).astype(float)', '(~self.characs["databook page"].isna()).astype(float)')
+twin("C07-T8", "C07", "default setup weight with the alternatives the other way round", FW, "ProjectFramework._sanitize_characteristics", '(~self.characs["databook page"].isna() | ~self.characs["default value"].isna()).astype(float)', '(~self.characs["default value"].isna() | ~self.characs["databook page"].isna()).astype(float)')
